@@ -353,7 +353,7 @@ theorem callsite_laws (site : CallSite) (h : site.ok = true) (d : List Int) (hd 
           (fun idx' => t.data.getD (Tensor.offset t.shape idx') default) := by
   have hacc : dimsAcceptable d = true := by
     simp only [CallSite.ok, Bool.and_eq_true, List.all_eq_true] at h
-    exact h.1.2 d hd
+    exact h.1 d hd
   have hnd := C01Validate.dimsAcceptable_nodup d hacc
   have hr' : ∀ a ∈ d.map Int.toNat, a < t.shape.length := by
     intro a ha
